@@ -83,7 +83,8 @@ class WMSClient(object):
             data = data.decode('utf-8', 'backslashreplace')
 
             log.warning("no image returned from source WMS: {}, response was: '{}'{}".format(url, data, truncated))
-            raise SourceError('no image returned from source WMS: %s' % (url, ))
+            # the URL stays in the log: it can carry credentials or, for mapserver sources, file-system paths
+            raise SourceError('no image returned from source WMS (see log for the request URL)')
 
     def _query_url(self, query, format):
         return self._query_req(query, format).complete_url
